@@ -707,6 +707,20 @@ pub fn check_c02(tier: &str) -> i32 {
         crate::checks::framing::server_stream_job_with_command("C02", &jobs[i].0, &jobs[i].1, &jobs[i].2, st);
     });
     rep.phase("segmented requests with a server command between the reads", st, json!({"streams": jobs.len()}));
+    // pipelined requests: a small request and a maximum-size write delivered together (the write
+    // straddles the session's 260-byte receive buffer), every position of one cut + uniform chunks
+    let mut pjobs: Vec<(ServerCfg, String, Vec<u8>)> = vec![];
+    for rtu in [false, true] {
+        let cfg = ServerCfg { rtu, units: vec![(1, AppSpec::dense())], auth: None, decode: (0, 0, 0) };
+        for (name, stream) in crate::checks::framing::pipelined_write_streams(rtu) {
+            pjobs.push((cfg.clone(), name, stream));
+        }
+    }
+    let pbound = crate::checks::framing::ChunkBound { uniform: true, max_cuts: 1, full_cuts_up_to: if rep.thorough() { 600 } else { 0 }, all_partitions_up_to: 0 };
+    let st = parallel(pjobs.len(), |i, st| {
+        crate::checks::framing::server_stream_job("C02", &pjobs[i].0, &pjobs[i].1, &pjobs[i].2, pbound, st);
+    });
+    rep.phase("pipelined requests: small request and maximum-size write in one delivery", st, json!({"streams": pjobs.len()}));
     for c in ["command-between-reads", "read-ok", "write-ok", "write-exception", "unknown-function", "empty", "unconfigured-unit", "denied", "invalid:fc15:over-limit"] {
         rep.require_class(c);
     }
